@@ -435,6 +435,15 @@ def run_main(pid, tier, seed, replay=None):
                          args=[a for a in x["args"] if a != "--salt" and not (x["args"][max(0, x["args"].index(a) - 1)] == "--salt")]
                          + ["--seed", str(seed * 131 + (int(x["args"][x["args"].index("--salt") + 1]) if "--salt" in x["args"] else 0))]
                          + (["--thorough"] if tier == "thorough" else [])))
+    model_stats = None
+    if P.get("model_replay", {}).get(tier):
+        mr = P["model_replay"][tier]
+        os.makedirs(f"{vk.WORK}/model", exist_ok=True)
+        mfile = f"{vk.WORK}/model/{pid}_{os.getpid()}.jsonl"
+        kept, total = vk.model_histories(mfile, num=mr["num"], depth=mr.get("depth", 80), seed=seed, max_histories=mr["max"])
+        model_stats = dict(behaviours_printed=total, histories_replayed=kept)
+        vk.log(f"[replay] {kept} maximal histories out of {total} behaviours printed by TLC (Replay.tla) are executed on the code")
+        jobs.append(dict(name="model", profile="model", threads=1, args=["from-model", "--file", mfile, "--seed", str(seed), "--first", str(first)]))
     results, d = vk.gen_and_validate(jobs, module=module, parallel=P.get("parallel", 8))
     hists_cache = {}
 
@@ -598,6 +607,7 @@ def run_main(pid, tier, seed, replay=None):
         violations_of_other_properties_seen=others,
         known_findings_matched={k: v[1] for k, v in known_hits.items()},
         conformance_drift=drift,
+        spec_to_impl_replay=model_stats,
         selftest=st,
         host=vk.host_info(),
         exhaustive=False,
@@ -669,6 +679,7 @@ MAIN = {
         traces=dict(quick=[dict(profile="forest", jobs=8, count=45)],
                     thorough=[dict(profile="forest", jobs=16, count=700), dict(profile="options", jobs=8, count=400, seed_off=100),
                               dict(family="mem", jobs=4, count=6, seed_off=200), dict(profile="parallel", jobs=4, count=200, seed_off=300, threads=[2, 4, 8, 16])]),
+        model_replay=dict(quick=dict(num=150, max=120), thorough=dict(num=3000, max=2500)),
         distinct=distinct_forests,
     ),
     "C04": dict(
@@ -681,6 +692,7 @@ MAIN = {
         mc=dict(quick=[mc("MC_Store.cfg", "store_txn")], thorough=[mc("MC_Store.cfg", "store_txn_3ids", {"Ids": "{1, 2, 3}", "MaxBuilds": "2", "Toks": "{\"a\"}"}, timeout=600)]),
         traces=dict(quick=[dict(profile="store", jobs=8, count=60)],
                     thorough=[dict(profile="store", jobs=16, count=900), dict(profile="metric", jobs=4, count=300, seed_off=100)]),
+        model_replay=dict(quick=dict(num=150, max=120), thorough=dict(num=3000, max=2500)),
         distinct=distinct_events, sample_event="Add",
     ),
     "C06": dict(
@@ -688,17 +700,20 @@ MAIN = {
                                                                   mc("MC_Metric.cfg", "metric")]),
         traces=dict(quick=[dict(profile="store", jobs=8, count=60, seed_off=7)],
                     thorough=[dict(profile="store", jobs=16, count=900, seed_off=7), dict(profile="multi", jobs=4, count=300, seed_off=100)]),
+        model_replay=dict(quick=dict(num=150, max=120), thorough=dict(num=3000, max=2500)),
         distinct=distinct_events, sample_event="Del",
     ),
     "C07": dict(
         mc=dict(quick=[mc("MC_Multi.cfg", "multi")], thorough=[mc("MC_Multi.cfg", "multi_2toks", {"Toks": "{\"a\", \"b\"}"}, timeout=1800)]),
         traces=dict(quick=[dict(profile="multi", jobs=8, count=45)], thorough=[dict(profile="multi", jobs=16, count=700)]),
+        model_replay=dict(quick=dict(num=150, max=120), thorough=dict(num=3000, max=2500)),
         distinct=distinct_events, sample_event="Clear",
     ),
     "C15": dict(
         mc=dict(quick=[mc("MC_Trees.cfg", "trees")], thorough=[mc("MC_Trees.cfg", "trees"), mc("MC_Trees.cfg", "trees_dim1", {"Dim": "1"}),
                                                                mc("MC_Trees.cfg", "sens_auto_zero", {"Dim": "1", "AtLeastOne": "FALSE"}, expect=True)] + FOREST_T),
         traces=dict(quick=[dict(profile="options", jobs=8, count=45)], thorough=[dict(profile="options", jobs=16, count=700)]),
+        model_replay=dict(quick=dict(num=150, max=120), thorough=dict(num=3000, max=2500)),
         distinct=distinct_forests,
     ),
     "C18": dict(
@@ -711,6 +726,7 @@ MAIN = {
                 thorough=[mc("MC_Store.cfg", "store_txn_3ids", {"Ids": "{1, 2, 3}", "MaxBuilds": "2", "Toks": "{\"a\"}"}, timeout=600), mc("MC_Multi.cfg", "multi")]),
         traces=dict(quick=[dict(profile="store", jobs=6, count=60, seed_off=13), dict(profile="search", jobs=2, count=30, seed_off=13)],
                     thorough=[dict(profile="store", jobs=16, count=900, seed_off=13), dict(profile="search", jobs=4, count=300, seed_off=13)]),
+        model_replay=dict(quick=dict(num=150, max=120), thorough=dict(num=3000, max=2500)),
         distinct=distinct_events, sample_event="Append",
     ),
     "C02": dict(
